@@ -11,6 +11,8 @@ pub struct StructInfo {
     pub ns: String,
     pub name: String,
     pub fields: Vec<(String, Ty)>,
+    /// struct view: the Rust struct has more fields than are translated
+    pub view: bool,
 }
 
 #[derive(Clone, Debug)]
@@ -111,7 +113,9 @@ pub fn find<'a>(path: &str, file: &'a syn::File, sel: &Sel) -> R<Found<'a>> {
     for item in &file.items {
         match (sel, item) {
             (Sel::Const(n), syn::Item::Const(c)) if c.ident == n && !has_cfg_test(&c.attrs) => hits.push(Found::Const(c)),
-            (Sel::Struct(n), syn::Item::Struct(s)) if s.ident == n && !has_cfg_test(&s.attrs) => hits.push(Found::Struct(s)),
+            (Sel::Struct(n), syn::Item::Struct(s)) | (Sel::StructView(n, _), syn::Item::Struct(s)) if s.ident == n && !has_cfg_test(&s.attrs) => {
+                hits.push(Found::Struct(s))
+            }
             (Sel::Enum(n), syn::Item::Enum(e)) if e.ident == n && !has_cfg_test(&e.attrs) => hits.push(Found::Enum(e)),
             (Sel::Fn(n), syn::Item::Fn(f)) if f.sig.ident == n && !has_cfg_test(&f.attrs) => {
                 hits.push(Found::Fn(&f.sig, &f.block, f.span()))
@@ -161,7 +165,7 @@ pub fn find<'a>(path: &str, file: &'a syn::File, sel: &Sel) -> R<Found<'a>> {
     }
     let what = match sel {
         Sel::Const(n) => format!("const {}", n),
-        Sel::Struct(n) => format!("struct {}", n),
+        Sel::Struct(n) | Sel::StructView(n, _) => format!("struct {}", n),
         Sel::Enum(n) => format!("enum {}", n),
         Sel::Fn(n) => format!("fn {}", n),
         Sel::Method(t, n) => format!("fn {}::{}", t, n),
@@ -194,7 +198,7 @@ impl Globals {
         for (path, sels) in MANIFEST {
             for sel in *sels {
                 match sel {
-                    Sel::Struct(n) | Sel::Enum(n) => {
+                    Sel::Struct(n) | Sel::Enum(n) | Sel::StructView(n, _) => {
                         if type_names.iter().any(|t| t == n) {
                             return Err(TErr {
                                 file: path.to_string(),
@@ -229,16 +233,34 @@ impl Globals {
                             return err_at(path, s.generics.span(), "generic struct is not supported");
                         }
                         let mut fields = Vec::new();
+                        let view_fields: Option<&[&str]> = match sel {
+                            Sel::StructView(_, fs) => Some(fs),
+                            _ => None,
+                        };
+                        let view = view_fields.is_some();
                         match &s.fields {
                             syn::Fields::Named(nf) => {
                                 for f in &nf.named {
+                                    let fname = f.ident.as_ref().unwrap().to_string();
+                                    if let Some(vf) = view_fields {
+                                        if !vf.contains(&fname.as_str()) {
+                                            continue;
+                                        }
+                                    }
                                     let ty = conv_ty(path, &f.ty, Some(&s.ident.to_string()), &type_names)?;
-                                    fields.push((f.ident.as_ref().unwrap().to_string(), ty));
+                                    fields.push((fname, ty));
+                                }
+                                if let Some(vf) = view_fields {
+                                    for want in vf {
+                                        if !fields.iter().any(|(n, _)| n == want) {
+                                            return err_at(path, s.span(), format!("struct view: no field `{}` in `{}`", want, s.ident));
+                                        }
+                                    }
                                 }
                             }
                             _ => return err_at(path, s.span(), "only structs with named fields are supported"),
                         }
-                        g.structs.insert(s.ident.to_string(), StructInfo { ns: ns.clone(), name: s.ident.to_string(), fields });
+                        g.structs.insert(s.ident.to_string(), StructInfo { ns: ns.clone(), name: s.ident.to_string(), fields, view });
                     }
                     Found::Enum(e) => {
                         if e.generics.params.iter().any(|p| !matches!(p, syn::GenericParam::Lifetime(_))) {
@@ -378,10 +400,10 @@ fn register_builtins(g: &mut Globals) {
     let ns = BUILTIN_NS.to_string();
     g.structs.insert(
         "Range".into(),
-        StructInfo { ns: ns.clone(), name: "Range".into(), fields: vec![("start".into(), Ty::Int(64)), ("end".into(), Ty::Int(64))] },
+        StructInfo { ns: ns.clone(), name: "Range".into(), fields: vec![("start".into(), Ty::Int(64)), ("end".into(), Ty::Int(64))], view: false },
     );
     for n in ["OctetsMut", "Octets", "BufferTooShortError"] {
-        g.structs.insert(n.into(), StructInfo { ns: ns.clone(), name: n.into(), fields: vec![] });
+        g.structs.insert(n.into(), StructInfo { ns: ns.clone(), name: n.into(), fields: vec![], view: false });
     }
     let bts = Ty::Named("BufferTooShortError".into());
     let bytes = Ty::List(Box::new(Ty::u8()), ListKind::Slice);
@@ -474,7 +496,11 @@ pub fn conv_ty(file: &str, t: &syn::Type, self_ty: Option<&str>, type_names: &[S
                 }
             }
             let args = generic_args(last);
+            if name == "Duration" && args.is_empty() {
+                return Ok(Ty::Dur);
+            }
             match (name.as_str(), args.len()) {
+                ("Box", 1) => return conv_ty(file, args[0], self_ty, type_names),
                 ("Vec", 1) => return Ok(Ty::List(Box::new(conv_ty(file, args[0], self_ty, type_names)?), ListKind::Vec)),
                 ("Option", 1) => return Ok(Ty::Opt(Box::new(conv_ty(file, args[0], self_ty, type_names)?))),
                 ("Result", 2) => {
